@@ -31,7 +31,7 @@ RULE = (
 LEVEL_TEXT = (
     "After every step of every generated history the recorded `process` calls per telegram are compared with the naive scan of the "
     "reference list (same devices, once each, registration order); duplicate add / unknown remove must raise ValueError and leave "
-    "iteration order, length, membership, lookups and dispatch unchanged."
+    "iteration order, length, membership, lookups, the registry callback on each device and dispatch unchanged."
 )
 LEVEL_NOTE = "Devices' own process() is replaced by a recorder (dispatch only); has_group_address of the device classes is trusted as the definition of 'uses the address'."
 ASSUMPTIONS = [
@@ -203,6 +203,10 @@ def oracle(ctx, h) -> None:
                     return
                 if len(reg) != len(model) or any((d in reg) != (j in model) for j, d in enumerate(devices)):
                     ctx.fail(f"C37:membership:{what}", h, f"step {step}: len {len(reg)} / membership differ from reference {model}")
+                    return
+                cbs = [len(d.device_updated_cbs) for d in devices]
+                if cbs != [1 if j in model else 0 for j in range(len(devices))]:
+                    ctx.fail(f"C37:device-callbacks:{what}", h, f"step {step}: registry callbacks on the devices {cbs}, registered {model}")
                     return
                 # ---- dispatch ------------------------------------------------------
                 for label, telegram in _telegrams(h["apci"]):
